@@ -144,6 +144,11 @@ class ModbusRtuFramer(ModbusFramer):
                 except (IndexError, struct.error):
                     # the size of this frame cannot be computed yet
                     return False
+                if self._header['len'] > 256:
+                    # no RTU frame is longer than 256 bytes: the buffer does
+                    # not start with a frame, do not wait for the rest of it
+                    self.resetFrame()
+                    return False
 
             return self._header and len(self._buffer) >= self._header['len']
         else:
